@@ -85,6 +85,7 @@ type callRec struct {
 	Rb      string `json:"rb"`  // bytes result.Write emits for the value handed back (hex)
 	Wok     bool   `json:"wok"` // whether that Write succeeds
 	Args    string `json:"args"`
+	Note    string `json:"note,omitempty"`
 }
 
 type frameObs struct {
@@ -117,18 +118,19 @@ func protoFactory(name string) (*frugal.FProtocolFactory, error) {
 
 // ---- result structs ----------------------------------------------------------------------------
 
-// writePartial: the bytes Write emits, also when it fails part-way
-func writePartial(s labdriver.TStruct, proto string) ([]byte, bool) {
+// writePartial: the bytes Write emits, also when it fails part-way; panicked = Write panics (a
+// value no server survives handing back: the handler falls back to its default then)
+func writePartial(s labdriver.TStruct, proto string) (out []byte, ok bool, panicked bool) {
 	buf := thrift.NewTMemoryBuffer()
 	p, err := labdriver.Protocol(proto, buf)
 	if err != nil {
-		return nil, false
+		return nil, false, false
 	}
-	ok := true
+	ok = true
 	func() {
 		defer func() {
 			if recover() != nil {
-				ok = false
+				ok, panicked = false, true
 			}
 		}()
 		if e := s.Write(context.Background(), p); e != nil {
@@ -136,7 +138,7 @@ func writePartial(s labdriver.TStruct, proto string) ([]byte, bool) {
 		}
 	}()
 	p.Flush(context.Background())
-	return append([]byte{}, buf.Bytes()...), ok
+	return append([]byte{}, buf.Bytes()...), ok, panicked
 }
 
 func fieldByID(reg *labdriver.Registry, name string, s labdriver.TStruct, id int) (reflect.Value, bool) {
@@ -190,7 +192,7 @@ func defaults(reg *labdriver.Registry, raw json.RawMessage) interface{} {
 		if err != nil {
 			return labdriver.Resp{"code": 103, "err": err.Error()}
 		}
-		b, ok := writePartial(r, rq.Proto)
+		b, ok, _ := writePartial(r, rq.Proto)
 		out[m] = map[string]interface{}{"rb": hex.EncodeToString(b), "wok": ok}
 	}
 	return labdriver.Resp{"code": 0, "defaults": out}
@@ -217,17 +219,21 @@ func (s *script) handle(service, method string, fctx frugal.FContext, args []int
 	if dump, err := json.Marshal(s.dumpArgs(args)); err == nil {
 		rec.Args = string(dump)
 	}
-	oc, ok := s.rq.Outcomes[key]
-	if !ok || oc.Method != method {
+	fallback := func(note string) (interface{}, error) {
 		rec.Default = true
+		rec.Note = note
 		if name := s.rq.Results[method]; name != "" {
 			if r, err := defaultResult(s.reg, name); err == nil {
-				b, wok := writePartial(r, s.rq.Proto)
+				b, wok, _ := writePartial(r, s.rq.Proto)
 				rec.Rb, rec.Wok = hex.EncodeToString(b), wok
 			}
 		}
 		s.record(rec)
 		return nil, nil
+	}
+	oc, ok := s.rq.Outcomes[key]
+	if !ok || oc.Method != method {
+		return fallback("")
 	}
 	for _, kv := range oc.Extra {
 		k, _ := hex.DecodeString(kv[0])
@@ -249,12 +255,12 @@ func (s *script) handle(service, method string, fctx frugal.FContext, args []int
 	}
 	r, err := s.reg.BuildStruct(oc.Result, oc.Value)
 	if err != nil {
-		rec.Default = true
-		rec.Args = "BUILD ERROR " + err.Error()
-		s.record(rec)
-		return nil, nil
+		return fallback("build error: " + err.Error())
 	}
-	b, wok := writePartial(r, s.rq.Proto)
+	b, wok, panicked := writePartial(r, s.rq.Proto)
+	if panicked {
+		return fallback("result Write panics")
+	}
 	rec.Rb, rec.Wok = hex.EncodeToString(b), wok
 	s.record(rec)
 	if oc.K == "declared" {
